@@ -959,9 +959,28 @@ func (g *G) newExpr(depth int) *Node {
 		return &Node{Kind: "ExprNew", Kids: []Kid{one("Class", cls)}, Parts: parts(g.kw("new"), cls), Prec: precNew, Prefix: true, Flags: FPhp7Only}
 	}
 	var cls *Node
-	switch g.R.Intn(5) {
+	switch g.R.Intn(6) {
 	case 0:
 		cls = g.simpleVar()
+	case 5:
+		// class reference chains: new $a->b, new $a->b[0], new $a::$b, new $a[0]->c
+		cls = g.simpleVar()
+		for i, n := 0, g.R.Range(1, 3); i < n; i++ {
+			switch g.R.Intn(3) {
+			case 0:
+				m := g.identifier(g.ident())
+				cls = &Node{Kind: "ExprPropertyFetch", Kids: []Kid{one("Var", cls), one("Prop", m)}, Parts: parts(cls, t("->"), m), Prec: 100}
+			case 1:
+				d := g.exprTop(depth + 2)
+				cls = &Node{Kind: "ExprArrayDimFetch", Kids: []Kid{one("Var", cls), one("Dim", d)}, Parts: parts(cls, t("["), d, t("]")), Prec: 100}
+			default:
+				if i == 0 && (g.O.Fam == 7 || n == 1) {
+					pv := g.simpleVarPlain()
+					cls = &Node{Kind: "ExprStaticPropertyFetch", Kids: []Kid{one("Class", cls), one("Prop", pv)}, Parts: parts(cls, t("::"), pv), Prec: 100, Flags: FKnownDiff}
+				}
+			}
+		}
+		cls.Flags |= FKnownDiff
 	case 1:
 		cls = g.identifier(g.R.Pick("static", "Static"))
 	default:
@@ -1020,9 +1039,27 @@ func (g *G) varExpr(depth int, call bool) *Node {
 	case k == 3 && depth < g.O.MaxDepth && call:
 		// function call
 		var fn *Node
-		if g.R.Chance(1, 4) {
+		switch g.R.Intn(8) {
+		case 0, 1:
 			fn = g.simpleVar()
-		} else {
+		case 2:
+			// $a[0]() / $a->b[0](): the callee is a variable expression ending in a dimension
+			var v *Node
+			if g.O.Fam == 5 {
+				// PHP 5 allows a call on an element only for plain variable / property chains
+				v = g.simpleVar()
+				for i, n := 0, g.R.Intn(3); i < n; i++ {
+					m := g.identifier(g.ident())
+					v = &Node{Kind: "ExprPropertyFetch", Kids: []Kid{one("Var", v), one("Prop", m)}, Parts: parts(v, t("->"), m), Prec: 100}
+				}
+			} else {
+				g.dollarFirst++
+				v = g.varExpr(depth+1, false)
+				g.dollarFirst--
+			}
+			d := g.exprTop(depth + 1)
+			fn = &Node{Kind: "ExprArrayDimFetch", Kids: []Kid{one("Var", v), one("Dim", d)}, Parts: parts(v, t("["), d, t("]")), Prec: 100}
+		default:
 			fn = g.name(true)
 		}
 		as, ps := g.args(depth)
